@@ -2393,6 +2393,47 @@ let make_incompressible_mode k d u =
   let p = k.omul inv (divm k d u) in
   map2 (fun dc0 uc -> k.osub uc (k.omul dc0 p)) d u
 
+(** val ax_scale : ops -> z -> z -> bool -> car **)
+
+let ax_scale k n kc last =
+  if axis_plain n kc last
+  then fz k n
+  else k.odiv (fz k n) (fz k (Zpos (XO XH)))
+
+(** val injection2d : ops -> car -> car -> z -> z -> z list -> car **)
+
+let injection2d k s gamma n kinj k0 =
+  if (&&) (Z.eqb (nth O k0 Z0) Z0) (Z.eqb (nth (S O) k0 Z0) kinj)
+  then k.omul (k.omul (k.oopp (k.omul s (fz k (nth (S O) k0 Z0)))) gamma)
+         (k.omul (ax_scale k n (nth O k0 Z0) false)
+           (ax_scale k n (nth (S O) k0 Z0) true))
+  else k.o0
+
+(** val sgn0 : ops -> z -> car **)
+
+let sgn0 k = function
+| Z0 -> k.o0
+| Zpos _ -> k.o1
+| Zneg _ -> k.oopp k.o1
+
+(** val injection3d : ops -> car -> car -> z -> z -> nat -> z list -> car **)
+
+let injection3d k ii gamma n kinj channel k0 =
+  match channel with
+  | O ->
+    if (&&)
+         ((&&) (Z.eqb (nth O k0 Z0) Z0)
+           (Z.eqb (Z.abs (nth (S O) k0 Z0)) kinj))
+         (Z.eqb (nth (S (S O)) k0 Z0) Z0)
+    then k.omul
+           (k.omul (k.omul (k.oopp ii) (sgn0 k (nth (S O) k0 Z0))) gamma)
+           (k.omul
+             (k.omul (ax_scale k n (nth O k0 Z0) false)
+               (ax_scale k n (nth (S O) k0 Z0) false))
+             (ax_scale k n (nth (S (S O)) k0 Z0) true))
+    else k.o0
+  | S _ -> k.o0
+
 (** val aff : z -> z -> z -> z **)
 
 let aff a b u =
@@ -3166,6 +3207,28 @@ let run_ops sub0 a =
           ((poisson_mode cQ (Obj.magic cxa O) (Obj.magic cxa (S (S O)))) :: []))
    | _ -> [])
 
+(** val run_c12 : z -> q list -> q list **)
+
+let run_c12 sub0 a =
+  match sub0 with
+  | Zpos p ->
+    (match p with
+     | XI _ -> []
+     | XO p0 ->
+       (match p0 with
+        | XH ->
+          put_cx
+            ((injection3d cQ ciQ (cr (getq a O)) (qz (getq a (S O)))
+               (qz (getq a (S (S O)))) (qn (getq a (S (S (S O)))))
+               (zs (skipn (S (S (S (S O)))) a))) :: [])
+        | _ -> [])
+     | XH ->
+       put_cx
+         ((injection2d cQ (cr (getq a O)) (cr (getq a (S O)))
+            (qz (getq a (S (S O)))) (qz (getq a (S (S (S O)))))
+            (zs (skipn (S (S (S (S O)))) a))) :: []))
+  | _ -> []
+
 (** val run : z -> q list -> q list **)
 
 let run id a =
@@ -3207,10 +3270,11 @@ let run id a =
            (match p1 with
             | XI p2 ->
               (match p2 with
+               | XI _ -> []
                | XO p3 -> (match p3 with
                            | XH -> run_c20 sub0 a
                            | _ -> [])
-               | _ -> [])
+               | XH -> run_c12 sub0 a)
             | XO _ -> []
             | XH -> run_c04 sub0 a)
          | XH -> run_c02 sub0 a)
